@@ -263,6 +263,10 @@ def m_list(interp, args, kwargs):
         src = interp.resolve(src)
     if isinstance(src, SList):
         return slist_copy(interp, src)
+    if isinstance(src, SIter):
+        # list(iterator over a symbolic sequence): its remaining items (the iterator is consumed)
+        from . import seqs
+        return seqs.as_slist(interp, src)
     return list(interp.iterate(src))
 
 
@@ -998,7 +1002,10 @@ def q_exists(interp, args, kwargs):
 
 
 def m_is_opaque(interp, args, kwargs):
-    return isinstance(args[0], Opaque)
+    x = args[0]
+    if isinstance(x, (SOpt, SChoice)):
+        x = interp.resolve(x)
+    return isinstance(x, Opaque)
 
 
 def _count_reduce_site(interp):
